@@ -29,6 +29,9 @@ def run_property(prop, tier="quick", root=None, overlay=None, seed=0):
     mod = importlib.import_module("tyverif.rules." + prop)
     ctx = Ctx(prop, tier=tier, root=root, overlay=overlay, seed=seed)
     mod.run(ctx)
+    if not os.environ.get("TYVERIF_NO_STATE"):
+        from .state import rule_state
+        ctx.attempt(rule_state, ctx, prop + ".state")
     if not os.environ.get("TYVERIF_NOEXPECT") and not ctx.errors:
         for rid, n in getattr(mod, "EXPECT", {}).items():
             try:
